@@ -14,6 +14,7 @@ cdef bint TYPE_CHECKING
 
 cdef cython.uint _MAX_MSG_ABSOLUTE
 cdef cython.uint _DUPLICATE_PACKET_SUPPRESSION_INTERVAL
+cdef cython.uint _DUPLICATE_PACKET_BACK_TO_BACK_INTERVAL
 cdef cython.uint _MDNS_PORT
 
 
@@ -25,6 +26,7 @@ cdef class AsyncListener:
     cdef RecordManager _record_manager
     cdef QueryHandler _query_handler
     cdef public cython.bytes data
+    cdef public bint undone
     cdef public double last_time
     cdef public DNSIncoming last_message
     cdef public object transport
